@@ -341,6 +341,46 @@ def check_stream_class(chk, db, rect, kind, rule, rule_status):
 # ---------------------------------------------------------------------------
 # fd family
 
+def _eval_cond(c, env):
+    """truth of a symbolic condition under an assignment of its atoms (None if an atom is not assigned)"""
+    from .symx import BoolOp
+    if isinstance(c, Cmp):
+        total = 0
+        for mono, coef in c.p.t.items():
+            v = coef
+            for a in mono:
+                x = env(a)
+                if x is None:
+                    return None
+                v *= x
+            total += v
+        return {'<=': total <= 0, '==': total == 0, '!=': total != 0, '<': total < 0}[c.op]
+    if isinstance(c, BoolOp):
+        vals = [_eval_cond(a, env) for a in c.args]
+        if c.op == 'not':
+            return None if vals[0] is None else (not vals[0])
+        if c.op == 'and':
+            return False if any(v is False for v in vals) else (None if any(v is None for v in vals) else True)
+        if c.op == 'or':
+            return True if any(v is True for v in vals) else (None if any(v is None for v in vals) else False)
+    return None
+
+
+def _path_satisfied(p, sys_name, rv, en):
+    """can this path be taken when the (last) system call returns rv with errno en?  Unknown conditions count as satisfiable."""
+    def env(atom):
+        if atom.startswith(sys_name + '('):
+            return rv
+        if 'errno' in atom:
+            return en
+        return None
+    for c, sense in p.conds:
+        v = _eval_cond(c, env)
+        if v is not None and v != sense:
+            return False
+    return True
+
+
 def check_fd_class(chk, db, rec_q, kind, rule):
     methods = methods_of(db, rec_q)
     if not methods:
@@ -394,6 +434,21 @@ def check_fd_class(chk, db, rec_q, kind, rule):
         if n_ok == 0:
             ok = False
             why.append('no success path')
+        # outcome table of one system call, decided by evaluating every returning path's conditions on the four cases
+        # (ret = requested, 0, -1 with errno == EINTR, -1 with another errno): EINTR must not return at all (it is retried)
+        for p in paths:
+            calls = [e for e in p.events if e.kind == 'call' and e.name == sys_name and not e.obj]
+            if not calls:
+                continue
+            want_n = symx.as_poly(calls[-1].args[2]) if len(calls[-1].args) == 3 else None
+            req = want_n.const_value() if want_n is not None and want_n.is_const() else 1
+            kind_ret = 'OK' if (isinstance(p.ret, StatusVal) and p.ret.kind == 'ok') else (p.ret.arg if isinstance(p.ret, StatusVal) and p.ret.kind == 'err' else repr(p.ret))
+            for case, (rv, en, allowed) in {'transferred': (req, 0, {'OK'}), 'end of data': (0, 0, {eof_err}),
+                                            'EINTR': (-1, 4, set()), 'error': (-1, 5, {'IOError'})}.items():
+                sat = _path_satisfied(p, sys_name, rv, en)
+                if sat and kind_ret not in allowed and not (case == 'transferred' and calls[-1].in_loop):
+                    ok = False
+                    why.append('%s() %s (ret=%d%s) returns %s' % (sys_name, case, rv, ', errno=EINTR' if en == 4 else (', errno=EIO' if en == 5 else ''), kind_ret))
         chk.decide(ok, rule, where, '%s: %s' % (label, '; '.join(sorted(set(why))) if why else
                                                   'success only when %s() transferred the requested byte; 0 => %s; other => IOError unless EINTR' % (sys_name, eof_err)),
                    function=label)
